@@ -307,9 +307,11 @@ err_t btokSMCmdUnwrap(apdu_cmd_t* cmd, size_t* size, const octet apdu[],
 	const octet* mac;
 	btok_sm_st* st;
 	// pre
-	ASSERT(memIsValid(apdu, count));
 	ASSERT(memIsNullOrValid(state, btokSM_keep()));
 	ASSERT(memIsNullOrValid(cmd, sizeof(apdu_cmd_t)));
+	// проверить входные указатели
+	if (!memIsValid(apdu, count))
+		return ERR_BAD_INPUT;
 	// слишком короткая командв?
 	// нужно снять защиту с незащищенной команды?
 	// невозможно снять защиту?
@@ -588,9 +590,11 @@ err_t btokSMRespUnwrap(apdu_resp_t* resp, size_t* size, const octet apdu[],
 	const octet* mac;
 	btok_sm_st* st;
 	// pre
-	ASSERT(memIsValid(apdu, count));
 	ASSERT(memIsNullOrValid(state, btokSM_keep()));
 	ASSERT(memIsNullOrValid(resp, sizeof(apdu_resp_t)));
+	// проверить входные указатели
+	if (!memIsValid(apdu, count))
+		return ERR_BAD_INPUT;
 	// слишком короткий ответ?
 	if (count < 2 || state && count < 12)
 		return ERR_BAD_APDU;
